@@ -1,3 +1,10 @@
 import XProofs.Properties.C12
 #print axioms Properties.C12.C12_reduce_rebuild
 #print axioms Properties.C12.C12_restored_same_behaviour
+#print axioms Properties.C12.C12_copies_independent
+#print axioms Properties.C12.C12_restored_isomorphic
+#print axioms Properties.C12.C12_no_shared_object
+#print axioms Properties.C12.C12_sharing_preserved
+#print axioms Properties.C12.C12_restored_same_contents_under_assignments
+#print axioms Properties.C12.C12_copy_well_formed
+#print axioms Properties.C12.C12_canonical_form_preserved
